@@ -264,7 +264,8 @@ Fixpoint show_jval_u (v : jval) : bytes :=
   | JStr s => esc_string_utf8 s
   | JArr l => 91 :: intersperse [44] (map show_jval_u l) ++ [93]
   end.
-Definition show_member_u (kv : bytes * jval) : bytes := 34 :: fst kv ++ [34; 58] ++ show_jval_u (snd kv).
+(* the field name is written like a string value (json.Marshal of the name): any name keeps the document well formed *)
+Definition show_member_u (kv : bytes * jval) : bytes := esc_string_utf8 (fst kv) ++ [58] ++ show_jval_u (snd kv).
 Definition format_json (c : fmtc) (m : msg) : option bytes :=
   match format_members c m (cFields c) with
   | Some ms => Some (123 :: intersperse [44] (map show_member_u ms) ++ [125])
